@@ -64,4 +64,23 @@ def firstNotInD (xs ys : List Nat) : Nat := (firstNotIn xs ys).getD 0
 /-- `faces[i] = F` on a list of faces -/
 def listSet (l : List (List Nat)) (i : Nat) (F : List Nat) : List (List Nat) := l.set i F
 
+/-! ### round 6: `while True` loops, dicts with integer values, `list.sort(key=..)` -/
+
+/-- `int -> int` dict whose values may be negative (`keys_cell`, `keys_face`): association list, later stores win -/
+abbrev IMap := List (Nat × Int)
+/-- `d[k] = v` -/
+def iSet (d : IMap) (k : Nat) (v : Int) : IMap := d ++ [(k, v)]
+/-- `k in d` -/
+def iHas (d : IMap) (k : Nat) : Bool := (d.map (·.1)).contains k
+
+/-- `while True: body` with `break`: `body` sets the flag read by `brk`; the loop runs on a fuel argument (the bridges show
+that the flag is raised within the fuel) -/
+def whileTrue {σ : Type} (brk : σ → Bool) (body : σ → σ) : Nat → σ → σ
+  | 0, s => s
+  | n + 1, s => let s' := body s; if brk s' then s' else whileTrue brk body n s'
+
+/-- `d[k].sort(key = lambda x: keys.get(x, float("inf")))`: stable sort by key, elements without a key last
+(`Conn.sortByKey` of the hand model is this very function; it is vocabulary here) -/
+def dSortBy (d : Dict) (k : Nat) (keys : IMap) : Dict := d.modify k (fun l => Conn.sortByKey l keys)
+
 end Mouette.VolS
